@@ -585,6 +585,32 @@ Definition stmt_policy_r (x : ectx) (raddr : ipaddr) (st : stmt) (pre : option p
     rbind (match pre with None => Ok (stmt_attrs st a) | Some pa => apply_prepend ic pa (stmt_attrs st a) end)
           (fun a2 => Ok (if stmt_rejects st default then None else Some (a2, stmt_nh x raddr st nh onh))).
 
+(* The rtc_filter argument of process_nlri_change (daemon/src/rtc.rs RtcFilter::allows):
+   a path whose attributes the filter does not allow is treated as rejected, before
+   pre_policy_defaults and the export policy run.  allows looks only at
+   EXTENDED_COMMUNITY attributes, which pre_policy_defaults never touches, so the
+   filter is exactly a wrapper around the policy. *)
+Definition EXTENDED_COMMUNITY : N := 16.
+
+Fixpoint chunks8_any (fuel : nat) (rts : list (list N)) (b : list N) : bool :=
+  match fuel with
+  | O => false
+  | S f =>
+    if Nat.ltb (length b) 8 then false          (* chunks_exact: a short tail is ignored *)
+    else existsb (bytes_eqb (firstn 8 b)) rts || chunks8_any f rts (skipn 8 b)
+  end.
+
+Definition rtc_allows (accept_all : bool) (rts : list (list N)) (attrs : list attr) : bool :=
+  accept_all
+  || existsb (fun a => (a_code a =? EXTENDED_COMMUNITY)
+                       && match binary a with
+                          | Some d => chunks8_any (S (length d)) rts d
+                          | None => false
+                          end) attrs.
+
+Definition with_rtc (f : list attr -> bool) (polr : policy_fn_r) : policy_fn_r :=
+  fun s a nh onh ic => if f a then polr s a nh onh ic else Ok None.
+
 (* echo / split horizon / RS isolation *)
 Definition visible (x : ectx) (raddr : ipaddr) (cid : option N) (p : path) : bool :=
   negb (ip_eqb (src_raddr (p_src p)) raddr)
@@ -838,7 +864,9 @@ Inductive case :=
                 (nh : option nexthop) (attrs : list attr)               (* 11 *)
 | CProcessPol (x : ectx) (emax : N) (raddr : ipaddr) (cid : option N) (c : change) (e : emap) (probe : list N)
               (st : stmt) (pre : option prepend_action) (default : disp) (* 12: with a real export policy *)
-| CHistory (x : ectx) (emax : N) (raddr : ipaddr) (cid : option N) (cs : list change) (probe : list N). (* 13 *)
+| CHistory (x : ectx) (emax : N) (raddr : ipaddr) (cid : option N) (cs : list change) (probe : list N) (* 13 *)
+| CProcessRtc (x : ectx) (emax : N) (raddr : ipaddr) (cid : option N) (c : change) (e : emap) (probe : list N)
+              (accept_all : bool) (rts : list (list N)).                (* 14: with an RtcFilter *)
 
 Definition run_case (c : case) : val :=
   match c with
@@ -867,4 +895,7 @@ Definition run_case (c : case) : val :=
   | CHistory x emax raddr cid cs probe =>
     v_res (fun r => VL [VList v_sinkop (fst r); v_emap (snd r) probe])
           (run_changes x no_policy emax raddr cid cs (if emax =? 1 then ENone else EAddPath []))
+  | CProcessRtc x emax raddr cid ch e probe acc rts =>
+    v_res (fun r => VL [VList v_sinkop (fst r); v_emap (snd r) probe])
+          (process_change_r true x (with_rtc (rtc_allows acc rts) (lift_policy no_policy)) emax raddr cid ch e)
   end.
